@@ -222,12 +222,24 @@ func newRef(b *Battle) *ref.Mars {
 
 // Check runs every selected oracle on one battle.
 func (c *Checker) Check(b *Battle) {
+	if b.ResetAt < -1 {
+		if c.Props.C15 {
+			c.manyResets(b.M, -b.ResetAt)
+		}
+		return
+	}
 	c.Rep.States++
 	if c.Props.C02 || c.Props.C04 || c.Props.C15 {
 		c.stepwise(b)
 	}
 	if c.Props.C12 {
-		c.rotations(b)
+		if b.M > 64 {
+			// large cores: chosen shifts instead of every shift (also on replay)
+			c.Rep.States--
+			c.bigRotation(b, BigShifts(b.M))
+		} else {
+			c.rotations(b)
+		}
 	}
 }
 
@@ -617,4 +629,9 @@ func (c *Checker) bigRotation(b *Battle, shifts []uint64) {
 			})
 		}
 	}
+}
+
+// BigShifts are the shifts tried for a large core.
+func BigShifts(m uint64) []uint64 {
+	return []uint64{1, 65535, 65536, 65537, m - 1, m, m + 1, 3*m + 7}
 }
